@@ -102,10 +102,19 @@ struct InputStream { shared: Arc<Mutex<InputShared>>, sched: &'static Sched, pip
 impl Stream for InputStream {
     type Item = i64;
     fn poll_next(self: Pin<&mut Self>, context: &mut Context) -> Poll<Option<i64>> {
+        // Like a channel receiver: look, register the waker, look again (an item or the end of the stream can arrive in between,
+        // in which case the result is returned with the waker still registered)
+        {
+            let mut shared = self.shared.lock().unwrap();
+            if let Some(item) = shared.items.pop_front() { return Poll::Ready(Some(item)); }
+            if shared.closed { self.sched.obs("in_end", self.pipe as i64, 0); return Poll::Ready(None); }
+        }
+        self.sched.yield_now("inpoll");
         let mut shared = self.shared.lock().unwrap();
+        shared.waker = Some(context.waker().clone());
         if let Some(item) = shared.items.pop_front() { Poll::Ready(Some(item)) }
         else if shared.closed { self.sched.obs("in_end", self.pipe as i64, 0); Poll::Ready(None) }
-        else { shared.waker = Some(context.waker().clone()); Poll::Pending }
+        else { Poll::Pending }
     }
 }
 
